@@ -19,6 +19,10 @@ package val
 import (
 	"context"
 
+	"github.com/zeebo/xxh3"
+
+	"github.com/dolthub/dolt/go/store/pool"
+
 	"github.com/dolthub/dolt/go/store/hash"
 )
 
@@ -138,8 +142,14 @@ func verif_wf_tuple(tup Tuple) bool {
 
 var verif_ghost struct {
 	aHash hash.Hash // address returned by the most recent ValueStore.WriteBytes
+	kLo   uint64    // low / high word of the most recent xxh3.Hash128
+	kHi   uint64
 }
 
 func verif_x_vs_WriteBytes(vs ValueStore, ctx context.Context, val []byte) (h hash.Hash, err error) {
 	return vs.WriteBytes(ctx, val)
 }
+
+func verif_x_pool_Get(p pool.BuffPool, size uint64) (buf []byte) { return p.Get(size) }
+
+func verif_x_xxh3_Hash128(b []byte) (h xxh3.Uint128) { return xxh3.Hash128(b) }
